@@ -25,8 +25,10 @@ How a run works
                   typically the harness's own "K-NOPANIC" marker, or no panic at all)
        undecided  timeout, out of memory, CBMC error, missing output: never counted as a pass
   5. a failed harness is re-run alone with concrete playback; the generated unit tests are appended to a
-     scratch copy of the crate and executed natively with `cargo kani playback` (dev profile; and a
-     release-like profile for information). Only a natively failing test is reported as a violation;
+     scratch copy of the crate and executed natively with `cargo kani playback` (dev profile, overflow
+     checks on — Kani's playback forces `-C overflow-checks=on`, so a true release-profile replay is
+     not available through it; VERIF_KANI_REPLAY_OPT=1 adds an opt-level-3 run for information).
+     Only a natively failing test is reported as a violation;
      otherwise the entry goes to "nonrepro" (check exits 2).
 Python 3.11 stdlib only.
 """
@@ -48,6 +50,7 @@ JOBS = int(os.environ.get("VERIF_JOBS", "16"))
 RSS_LIMIT_GB = float(os.environ.get("VERIF_KANI_RSS_GB", "12"))
 MIN_AVAIL_GB = float(os.environ.get("VERIF_KANI_MIN_AVAIL_GB", "5"))
 DEFAULT_CAP = {"quick": 300, "thorough": 900}
+REPLAY_MAX = int(os.environ.get("VERIF_KANI_REPLAY_MAX", "8"))
 KANI_VERSION = "kani 0.68.0 / CBMC 6.11.0 (cadical)"
 
 HARNESS_RE = re.compile(
@@ -254,7 +257,12 @@ def _run_kani(crate_dir, target_dir, harnesses, timeout_s, jobs, logfile, log, e
     return open(logfile, errors="replace").read(), wd
 
 
-BLOCK_START = re.compile(r"^(?:Thread (\d+): )?(.*)$")
+def _unquote(d):
+    """Kani prints custom assertion messages in (sometimes escaped) double quotes; keys use the bare text."""
+    d = d.strip().replace('\\"', '"')
+    while len(d) >= 2 and d[0] == '"' and d[-1] == '"':
+        d = d[1:-1]
+    return d
 
 
 def parse_terse(text):
@@ -295,7 +303,7 @@ def parse_terse(text):
         m = re.search(r"\*\* (\d+) of (\d+) cover properties satisfied", raw)
         if m:
             r["covers_sat"], r["covers"] = int(m.group(1)), int(m.group(2))
-        r["failed_checks"] = [d.strip() for d in re.findall(r"^Failed Checks: (.*)$", raw, re.M)]
+        r["failed_checks"] = [_unquote(d) for d in re.findall(r"^Failed Checks: (.*)$", raw, re.M)]
         m = re.search(r"^VERIFICATION:- (SUCCESSFUL|FAILED)(.*)$", raw, re.M)
         if m:
             r["verdict"] = m.group(1)
@@ -305,6 +313,12 @@ def parse_terse(text):
         if re.search(r"CBMC failed|CBMC timed out|out of memory|Status: ERROR|std::bad_alloc", raw) or "VERIFICATION RESULT:" not in raw:
             r["cbmc_failed"] = True
         results[name] = r
+    # cross-check with Kani's own summary: a harness it lists as failed must not be parsed as successful
+    summary_failed = set(re.findall(r"^Verification failed for - (\S+)$", text, re.M))
+    for name, r in results.items():
+        if (r["verdict"] == "SUCCESSFUL") == (name in summary_failed) and r["verdict"] is not None and "Manual Harness Summary:" in text:
+            r["cbmc_failed"] = True
+            r["raw"] += "\n[kani_driver] verdict inconsistent with Kani's harness summary: treated as undecided"
     return results
 
 
@@ -350,28 +364,27 @@ def parse_playback(text):
         fn = re.search(r"fn (kani_concrete_playback_\w+)\(", src)
         vals = [{"comment": c.strip(), "bytes": [int(x) for x in b.replace(" ", "").split(",") if x]}
                 for c, b in re.findall(r"//([^\n]*)\n\s*vec!\[([^\]]*)\]", src)]
-        tests.append({"harness": full, "kind": m.group(1) if m else "", "check": m.group(2) if m else "",
+        tests.append({"harness": full, "kind": m.group(1) if m else "", "check": _unquote(m.group(2)) if m else "",
                       "test_fn": fn.group(1) if fn else "", "source": src, "values": vals})
     return tests
 
 
-def _native_playback(module, tests, profile, log, repo=None):
-    """Append the playback tests to a scratch copy of the crate and run them natively.
-    -> {test_fn: {"outcome": "failed"|"ok"|"missing", "message": str}}"""
+def _native_playback(tests, profile, log, repo=None):
+    """Append the playback tests (each carries its "module") to a scratch copy of the crate and run them
+    natively in one `cargo kani playback`. -> {test_fn: {"outcome": "failed"|"ok"|"missing", "message": str}}"""
     scratch = os.path.join(BUILD, "kani-replay")
     crate = os.path.join(scratch, "crate")
     _copy_crate(crate, repo or REPO)
-    path = os.path.join(crate, "src", module + ".rs")
-    with open(path, "a") as f:
-        f.write("\n// ---- concrete playback tests appended by kani_driver ----\n")
-        for t in tests:
-            f.write(t["source"] + "\n")
+    for module in sorted({t["module"] for t in tests}):
+        path = os.path.join(crate, "src", module + ".rs")
+        with open(path, "a") as f:
+            f.write("\n// ---- concrete playback tests appended by kani_driver ----\n")
+            for t in tests:
+                if t["module"] == module:
+                    f.write(t["source"] + "\n")
     extra = {"CARGO_TARGET_DIR": os.path.join(scratch, "target-" + profile)}
-    if profile == "release":
-        extra.update({"CARGO_PROFILE_DEV_OPT_LEVEL": "3", "CARGO_PROFILE_DEV_OVERFLOW_CHECKS": "false",
-                      "CARGO_PROFILE_DEV_DEBUG_ASSERTIONS": "false",
-                      "CARGO_PROFILE_TEST_OPT_LEVEL": "3", "CARGO_PROFILE_TEST_OVERFLOW_CHECKS": "false",
-                      "CARGO_PROFILE_TEST_DEBUG_ASSERTIONS": "false"})
+    if profile == "opt":
+        extra.update({"CARGO_PROFILE_DEV_OPT_LEVEL": "3", "CARGO_PROFILE_TEST_OPT_LEVEL": "3"})
     env = _env(extra)
     p = subprocess.run(["cargo", "kani", "playback", "-Z", "concrete-playback", "--", "kani_concrete_playback", "--test-threads=1"],
                        cwd=crate, env=env, stdout=subprocess.PIPE, stderr=subprocess.STDOUT, text=True)
@@ -387,38 +400,60 @@ def _native_playback(module, tests, profile, log, repo=None):
         if mm:
             msg = mm.group(1).strip()[:1500]
         res[t["test_fn"]] = {"outcome": outcome, "message": msg}
-    if all(v["outcome"] == "missing" for v in res.values()):
+    if tests and all(v["outcome"] == "missing" for v in res.values()):
         log("  kani playback (%s) produced no test results:\n%s" % (profile, _tail(out, 40)))
     return res
 
 
-def _counterexamples(h, bad_checks, crate_dir, target_dir, cap, log):
-    """Re-run one failed harness with concrete playback and execute the tests natively."""
-    logfile = os.path.join(BUILD, "logs", "kani-playback-%s.log" % h["name"])
-    text, _ = _run_kani(crate_dir, target_dir, [h], cap, 1, logfile, log,
+def _counterexamples(failed, crate_dir, target_dir, cap, jobs, log):
+    """failed: [(harness, unexpected failed checks)]. Re-runs the failed harnesses in ONE invocation with
+    concrete playback, then executes all generated tests natively in ONE test run.
+    -> ({harness name: [tests]}, native dev results, native opt results)"""
+    logfile = os.path.join(BUILD, "logs", "kani-playback.log")
+    hs = [h for h, _ in failed]
+    # (--concrete-playback is incompatible with --jobs > 1: this run is sequential)
+    text, _ = _run_kani(crate_dir, target_dir, hs, cap, 1, logfile, log,
                         extra=["-Z", "concrete-playback", "--concrete-playback=print"])
-    tests = [t for t in parse_playback(text) if t["kind"] != "cover"]
-    if h["should_panic"]:
-        tests = [t for t in tests if any(t["check"] in b or b in t["check"] for b in bad_checks)]
+    by_full = {h["full"]: (h, bad) for h, bad in failed}
+    per = {h["name"]: [] for h in hs}
+    seen_fns = set()
+    # Kani names a test after a hash of its values and prints each value vector once: when a satisfied
+    # cover and a failed check share their values only the cover's test exists. So cover tests are kept
+    # (natively a cover is a no-op: such a test fails only if the harness really panics); tests of
+    # failed checks come first, at most 6 per harness.
+    parsed = [t for t in parse_playback(text) if t["harness"] in by_full]
+    for t in sorted(parsed, key=lambda t: t["kind"] == "cover"):
+        h, bad = by_full[t["harness"]]
+        t["module"] = h["module"]
+        if len(per[h["name"]]) < 6 and t["test_fn"] not in seen_fns:
+            seen_fns.add(t["test_fn"])
+            per[h["name"]].append(t)
+    tests = [t for ts in per.values() for t in ts]
     if not tests:
-        return [], {}, {}
-    dev = _native_playback(h["module"], tests, "dev", log)
-    rel = {}
-    if os.environ.get("VERIF_KANI_REPLAY_RELEASE", "1") == "1":
+        return per, {}, {}
+    dev = _native_playback(tests, "dev", log)
+    opt = {}
+    if os.environ.get("VERIF_KANI_REPLAY_OPT", "0") == "1":
         try:
-            rel = _native_playback(h["module"], tests, "release", log)
+            opt = _native_playback(tests, "opt", log)
         except Exception as e:  # informational only
-            log("  kani playback (release-like) skipped: %s" % e)
-    return tests, dev, rel
+            log("  kani playback (opt-level 3) skipped: %s" % e)
+    return per, dev, opt
 
 
-def _reproduces(h, test, native):
+def _reproduces(h, test, native, bad=None):
+    """The playback test failed natively in the way CBMC predicted."""
     r = native.get(test["test_fn"], {})
     if r.get("outcome") != "failed":
         return False
-    if h["should_panic"]:
-        # the expected panic also fails the native test: only the harness's own marker counts
-        return "K-NOPANIC" in r.get("message", "") or test["check"] in r.get("message", "")
+    msg = r.get("message", "")
+    if h.get("should_panic"):
+        # the documented panic also fails the native test: only an unexpected failure counts
+        if "K-NOPANIC" in msg:
+            return True
+        rx = re.compile(h["panics"]) if h.get("panics") else None
+        first = next((l for l in msg.splitlines()[1:2]), "")
+        return bool(rx) and not rx.search(msg) and bool(first)
     return True
 
 
@@ -480,29 +515,58 @@ def run(prop, tier, seed, known, log, only=None):
             nonrepro.append({"key": "kani:%s::vacuous" % h["name"], "model": {"kind": "vacuous", "note": note}})
 
     # ---- counterexamples of failed harnesses: replay natively before reporting ----
-    for h, e in zip(hs, results):
-        if e["status"] != "failed":
-            continue
-        bad = list(dict.fromkeys(e["failed_checks"]))
-        log("  kani:%s FAILED (%s); extracting and replaying the counterexample natively" % (h["name"], "; ".join(bad)[:300]))
-        tests, dev, rel = _counterexamples(h, bad, crate_dir, target_dir, h["cap"] or DEFAULT_CAP[tier], log)
+    failed = [(h, list(dict.fromkeys(e["failed_checks"]))) for h, e in zip(hs, results) if e["status"] == "failed"]
+    not_replayed = []
+    if failed:
+        for h, bad in failed:
+            log("  kani:%s FAILED (%s)" % (h["name"], "; ".join(bad)[:300]))
+        # concrete playback runs sequentially: replay at most REPLAY_MAX harnesses, one per distinct
+        # failure signature first; the others are NOT reported as violations (they go to "nonrepro"
+        # unless their key is a known finding, so the check can never exit 0 on an unreplayed failure)
+        groups = {}
+        for h, bad in failed:
+            groups.setdefault(tuple(sorted(bad)), []).append((h, bad))
+        chosen, rank = [], 0
+        while len(chosen) < REPLAY_MAX and any(len(g) > rank for g in groups.values()):
+            for g in groups.values():
+                if len(g) > rank and len(chosen) < REPLAY_MAX:
+                    chosen.append(g[rank])
+            rank += 1
+        chosen_names = {h["name"] for h, _ in chosen}
+        not_replayed = [(h, bad) for h, bad in failed if h["name"] not in chosen_names]
+        failed = [(h, bad) for h, bad in failed if h["name"] in chosen_names]
+        log("  extracting %d counterexample(s) with concrete playback and replaying them natively%s" % (
+            len(failed), " (%d more failed harnesses not replayed: budget VERIF_KANI_REPLAY_MAX=%d)" % (len(not_replayed), REPLAY_MAX) if not_replayed else ""))
+        per, dev, opt = _counterexamples(failed, crate_dir, target_dir, max(h["cap"] or DEFAULT_CAP[tier] for h, _ in failed), jobs, log)
+    for h, bad in not_replayed:
+        for desc in bad:
+            key = "kani:%s::%s" % (h["name"], desc)
+            kn = next((k for k in known if k.get("prop", prop) == prop and re.fullmatch(k["key"], key)), None)
+            if kn:
+                known_hits.append({"key": key, "known": kn.get("text", ""), "replay_file": None, "note": "not replayed in this run (replay budget)"})
+            else:
+                nonrepro.append({"key": key, "model": {"note": "failed in CBMC but not replayed natively in this run (replay budget %d); rerun with --only kani:%s" % (REPLAY_MAX, h["name"])}})
+    for h, bad in failed:
+        tests = per.get(h["name"], [])
         repro_tests = [t for t in tests if _reproduces(h, t, dev)]
+        shown = repro_tests or tests
         replay_file = os.path.join(VERIF, "replays", prop, h["name"] + ".json")
         d = {
             "property": prop, "engine": "kani", "harness": h["name"], "module": h["module"], "should_panic": h["should_panic"],
             "panics": h["panics"], "failed_checks": bad, "instantiation": h["inst"], "asserts": h["asserts"],
-            "playback_test_source": "\n".join(t["source"] for t in (repro_tests or tests)),
+            "playback_test_source": "\n".join(t["source"] for t in shown),
             "tests": [{"test_fn": t["test_fn"], "check": t["check"], "values": t["values"],
-                       "native_dev": dev.get(t["test_fn"]), "native_release_like": rel.get(t["test_fn"])} for t in tests],
-            "values": (repro_tests or tests)[0]["values"] if (repro_tests or tests) else [],
-            "inputs": {"bytes": [v["bytes"] for v in ((repro_tests or tests)[0]["values"] if (repro_tests or tests) else [])],
-                       "decoded": [v["comment"] for v in ((repro_tests or tests)[0]["values"] if (repro_tests or tests) else [])]},
+                       "native_dev": dev.get(t["test_fn"]), "native_opt3": opt.get(t["test_fn"])} for t in tests],
+            "values": shown[0]["values"] if shown else [],
+            "inputs": {"bytes": [v["bytes"] for v in (shown[0]["values"] if shown else [])],
+                       "decoded": [v["comment"] for v in (shown[0]["values"] if shown else [])]},
             "how_to_replay": "./check %s --replay %s" % (prop, replay_file),
         }
         for desc in bad:
             key = "kani:%s::%s" % (h["name"], desc)
-            mine = [t for t in repro_tests if t["check"] == desc or desc in t["check"] or t["check"] in desc]
-            reproduced = bool(mine) or (bool(repro_tests) and not any(t["check"] == desc for t in tests))
+            # harness-level criterion: CBMC predicted that this harness fails, and a playback test of it
+            # fails natively (Kani prints one test per distinct value vector, not per failed check)
+            reproduced = bool(repro_tests)
             kn = next((k for k in known if k.get("prop", prop) == prop and re.fullmatch(k["key"], key)), None)
             if not reproduced:
                 nonrepro.append({"key": key, "model": {"values": d["values"], "native": {t["test_fn"]: dev.get(t["test_fn"]) for t in tests},
@@ -565,9 +629,9 @@ def replay(d, log):
         m = re.search(r"fn (kani_concrete_playback_\w+)\(", b)
         if m:
             c = re.search(r"/// Check for `(\w+)`: \"(.*)\"", b)
-            tests.append({"test_fn": m.group(1), "source": b.strip(), "check": c.group(2) if c else ""})
-    h = {"should_panic": d.get("should_panic", False)}
-    native = _native_playback(d["module"], tests, "dev", log)
+            tests.append({"test_fn": m.group(1), "source": b.strip(), "check": _unquote(c.group(2)) if c else "", "module": d["module"]})
+    h = {"should_panic": d.get("should_panic", False), "panics": d.get("panics")}
+    native = _native_playback(tests, "dev", log)
     rc = 0
     for t in tests:
         r = native.get(t["test_fn"], {})
